@@ -602,6 +602,22 @@ func checkC20(c C20Case) Verdict {
 		}
 		vals[i] = v
 	}
+	// the options belong to one conversion: the same Go values converted under other options (only the
+	// time format differs; both settings differ) follow those, and the first options still work afterwards
+	for _, alt := range []data.StructOptions{{LowerCamel: c.LowerCamel, TimeFormat: time.Kitchen}, {LowerCamel: !c.LowerCamel, TimeFormat: time.RFC822}, opts} {
+		c2 := c
+		c2.LowerCamel, c2.TimeFormat = alt.LowerCamel, alt.TimeFormat
+		for _, r := range []Recipe{c.A, c.B} {
+			goval, exp := build(r, &c2)
+			v, err := convert(alt, goval)
+			if err != nil {
+				return bad(true, "%s under options %+v: %v", r.T, alt, err)
+			}
+			if got, _ := fromData(v); !ref.DeepEqual(got, exp) {
+				return bad(true, "%s converted under options %+v (after a conversion under %+v) gave %#v, want %#v", r.T, alt, opts, got, exp)
+			}
+		}
+	}
 	// equality laws on the pair (and each value with itself)
 	for _, p := range [][2]int{{0, 1}, {0, 0}, {1, 1}} {
 		a, b := vals[p[0]], vals[p[1]]
